@@ -157,6 +157,7 @@ type sessState struct {
 	AdjOut []string   `json:"adjout"`
 	ASN    bool       `json:"asn"`
 
+	keepalives  int    // KEEPALIVEs the speaker wrote on the current connection
 	openProblem string // what is wrong with the OPEN the speaker wrote, given its configuration ("" = nothing)
 }
 
@@ -499,6 +500,10 @@ func (s *session) observe() sessState {
 				}
 			case wire.TypeKeepalive:
 				e.Kind = "KEEPALIVE"
+				o.keepalives++
+				if s.cfg.Hold < 30 && o.keepalives > 1 {
+					continue // the periodic KEEPALIVEs of a short hold time are counted, not listed (the model's outbox has the first one)
+				}
 			case wire.TypeNotification:
 				e.Kind, e.Code, e.Sub = "NOTIFICATION", d.Code, d.Subcode
 			case wire.TypeUpdate:
@@ -773,6 +778,18 @@ func init() {
 					s.vrf.IPv4UnicastRIB().AddPath(pfx, p)
 				} else {
 					s.vrf.IPv4UnicastRIB().RemovePath(pfx, p)
+				}
+			case "Sustain":
+				// the peer sends a KEEPALIVE every second for longer than the hold time; the speaker must send its own meanwhile
+				before := s.observe().keepalives
+				secs := st.Int("seconds")
+				for k := 0; k < secs; k++ {
+					s.conn.peerSend(wire.Header(wire.TypeKeepalive, nil))
+					time.Sleep(time.Second)
+				}
+				if got := s.observe(); got.St == "Established" && got.keepalives-before < secs/2 {
+					return &core.Divergence{Step: i, Action: a, Field: "keepalives-sent", Kind: "wrong", Class: class,
+						Want: fmt.Sprintf("at least %d KEEPALIVEs in %d s (hold time %d s)", secs/2, secs, exp.Hold), Got: got.keepalives - before}
 				}
 			case "ConnLost":
 				s.conn.mu.Lock()
